@@ -425,6 +425,193 @@ def execute(case: dict):
     return viols, stats, keys
 
 
+# ---------------------------------------------------------------------------
+# directly applied functions (the body is reached through the call, DESIGN.md section 5a)
+# ---------------------------------------------------------------------------
+
+
+def generate_applied(seed: int, tier: str) -> dict:
+    st = Streams(seed)
+    rng = st("applied")
+    base = (seed % 800 + 100) * 1000
+    k = [0]
+
+    def lit():
+        k[0] += 1
+        return str(base + k[0])
+
+    names = ["a", "b", "c"]
+    outer = []
+    if rng.random() < 0.6:
+        outer = ["%s = %s;" % (n, lit()) for n in names + ["n"] if rng.random() < 0.5]
+    arg_members = ["%s = %s;" % (n, lit() if rng.random() < 0.8 else rng.choice(["n", "a"])) for n in names if rng.random() < 0.6]
+    arg_by_name = rng.random() < 0.4
+    if arg_by_name or outer:
+        outer = outer + (["arg = { %s };" % " ".join(arg_members)] if arg_by_name else [])
+    formals = []
+    for n in names:
+        r = rng.random()
+        if r < 0.45:
+            formals.append(n)
+        elif r < 0.8:
+            formals.append("%s ? %s" % (n, lit() if rng.random() < 0.6 else rng.choice([x for x in names if x != n] + ["n"])))
+    simple = rng.random() < 0.15
+    inner_let = ["%s = %s;" % (n, lit()) for n in names if rng.random() < 0.2]
+    body = ["x%d = %s;" % (i + 1, n) for i, n in enumerate(names + ["n"]) if rng.random() < 0.8] or ["x1 = a;"]
+    body_text = "{ %s }" % " ".join(body)
+    if inner_let:
+        body_text = "let %s in %s" % (" ".join(inner_let), body_text)
+    if simple:
+        head = "a:"
+        argument = lit() if not arg_by_name else "n"
+        if arg_by_name and not any(o.startswith("n =") for o in outer):
+            outer.append("n = %s;" % lit())
+            outer = [o for o in outer if not o.startswith("arg =")]
+    else:
+        head = "{ %s%s }:" % (", ".join(formals), (", ..." if formals else "...") if rng.random() < 0.5 else "")
+        argument = "arg" if arg_by_name else "{ %s }" % " ".join(arg_members)
+    text = "(%s %s) %s" % (head, body_text, argument)
+    if not simple and arg_by_name and rng.random() < 0.5:
+        # nested application: the inner call has a let of its own that binds the argument's name again, and sits in
+        # the body of an outer application (whose chain it inherits)
+        own = "{ %s }" % " ".join("%s = %s;" % (n, lit()) for n in names if rng.random() < 0.7)
+        text = "let arg = %s; in %s" % (own, text)
+        text = rng.choice(["({ z }: %s) { z = 0; }", "(z: %s) 0", "({ arg }: %s) { arg = { a = %s; }; }" % ("%s", lit())]) % text
+    if outer:
+        text = "let\n" + "".join("  %s\n" % o for o in outer) + "in\n" + text
+    text += "\n"
+    probes = [b.split(" ")[0] for b in body]
+    return {"prop": "C10", "engine": "registry", "kind": "applied", "seed": seed, "tier": tier, "text": text, "probes": probes, "docs": [], "events": []}
+
+
+def _applied_body_node(doc: reader.Doc):
+    """function_expression of the applied lambda and the set its body denotes (through let / with / parentheses)."""
+    stack = [doc.root]
+    fn = None
+    while stack:
+        n = stack.pop(0)
+        if n.type == "apply_expression":
+            f = n.child_by_field_name("function")
+            while f is not None and f.type == "parenthesized_expression":
+                f = f.child_by_field_name("expression")
+            if f is not None and f.type == "function_expression":
+                fn = f
+                break
+        stack.extend(n.children)
+    if fn is None:
+        return None, None
+    for _level in range(4):
+        body = fn.child_by_field_name("body")
+        hops = 0
+        while body is not None and body.type in ("let_expression", "with_expression", "parenthesized_expression", "assert_expression") and hops < 8:
+            hops += 1
+            body = body.child_by_field_name("body") or body.child_by_field_name("expression")
+        if body is not None and body.type == "apply_expression":
+            # the body is itself an application of a lambda: descend
+            f = body.child_by_field_name("function")
+            while f is not None and f.type == "parenthesized_expression":
+                f = f.child_by_field_name("expression")
+            if f is not None and f.type == "function_expression":
+                fn = f
+                continue
+        break
+    if body is None or body.type not in reader.SET_TYPES:
+        return fn, None
+    return fn, body
+
+
+def execute_applied(case: dict):
+    from nix_manipulator import parse
+    from nix_manipulator.exceptions import ResolutionError
+    from nix_manipulator.expressions.identifier import Identifier
+    from nix_manipulator.expressions.parenthesis import Parenthesis
+    from nix_manipulator.resolution import scopes_for_owner, set_resolution_context
+
+    viols: list[Violation] = []
+    stats: dict = {"applied_documents": 1, "events": 0, "resolves": 0}
+    keys: list = []
+    text = case["text"]
+    doc = reader.Doc(text)
+    if doc.has_error():
+        stats["skip:applied_invalid"] = 1
+        return viols, stats, keys
+    fn, body = _applied_body_node(doc)
+    if body is None:
+        stats["skip:applied_no_body"] = 1
+        return viols, stats, keys
+    members = {}
+    for b in resolver._bindings_of(body):
+        if b.type == "binding":
+            ap = b.child_by_field_name("attrpath")
+            segs = [reader.decode_attr(x) for x in ap.named_children if x.type != "comment"]
+            if len(segs) == 1:
+                members[segs[0]] = b.child_by_field_name("expression")
+    src = parse(text)
+    from nix_manipulator.expressions.function.call import FunctionCall
+    from nix_manipulator.expressions.function.definition import FunctionDefinition
+
+    try:
+        lib_body = src.expr
+        for _level in range(4):
+            if not isinstance(lib_body, FunctionCall):
+                break
+            call = lib_body
+            f = call.name
+            while isinstance(f, Parenthesis):
+                f = f.value
+            if not isinstance(f, FunctionDefinition):
+                break
+            chain = scopes_for_owner(call)
+            lib_body = f.output
+            set_resolution_context(lib_body, chain)
+    except ResolutionError:
+        stats["skip:applied_call_scope_refused"] = 1  # e.g. a formal without default that the argument does not supply
+        return viols, stats, keys
+    except Exception as e:  # noqa: BLE001
+        viols.append(Violation("C10.wrong_exception", "building the call scope raised %s: %s" % (type(e).__name__, e), 0, {"what": "applied", "doc": None}))
+        return viols, stats, keys
+    rv = resolver.Resolver(doc)
+    for step, probe in enumerate(case["probes"]):
+        node = members.get(probe)
+        if node is None or resolver._name_of_variable(node) is None:
+            continue
+        exp = rv.resolve_value_node(node)
+        try:
+            ident = lib_body[probe]
+        except Exception:  # noqa: BLE001
+            stats["skip:applied_traverse_failed"] = stats.get("skip:applied_traverse_failed", 0) + 1
+            continue
+        if not isinstance(ident, Identifier):
+            continue
+        stats["resolves"] += 1
+        stats["probe:applied_resolutions"] = stats.get("probe:applied_resolutions", 0) + 1
+        stats["applied_expected:" + exp.kind] = stats.get("applied_expected:" + exp.kind, 0) + 1
+        facts = {"what": "applied", "doc": None, "expected": exp.kind, "binder": exp.binder, "via": exp.via, "wrappers": ["applied"]}
+        try:
+            val = ident.value
+            got = ("value", tuple(reader.tokens_of_text(val.rebuild() if hasattr(val, "rebuild") else str(val))))
+        except ResolutionError as e:
+            got = ("resolution_error", str(e))
+        except RecursionError:
+            got = ("budget", None)
+        except Exception as e:  # noqa: BLE001
+            got = ("other", "%s: %s" % (type(e).__name__, e))
+        keys.append(digest([text, probe, got[0]]))
+        what = "%s -> %s" % (probe, resolver._name_of_variable(node))
+        if got[0] == "other":
+            viols.append(Violation("C10.wrong_exception", "resolution of %s raised %s" % (what, got[1]), step, facts))
+        elif got[0] == "budget":
+            viols.append(Violation("C10.unbounded", "resolution of %s did not finish" % what, step, facts))
+        elif exp.kind == "value":
+            if got[0] != "value":
+                viols.append(Violation("C10.explicit_failure_on_bound", "%s is bound (%r via %s) but resolution failed: %s" % (what, exp.tokens, exp.via, got[1]), step, facts))
+            elif tuple(got[1]) != tuple(exp.tokens):
+                viols.append(Violation("C10.wrong_value", "%s resolves to %r; the applied function's scoping designates %r (via %s)" % (what, got[1], exp.tokens, exp.via), step, facts))
+        elif exp.kind in ("unbound", "cycle") and got[0] == "value":
+            viols.append(Violation("C10.%s_resolved" % exp.kind, "%s is %s but resolved to %r" % (what, exp.kind, got[1]), step, facts))
+    return viols, stats, keys
+
+
 class RegistryProperty:
     engine = "registry"
     rule = ("one evaluation = one seeded lifetime history (create / resolve / assign-through / scope edit / inherit copy / drop / gc.collect) over 2-6 generated scoping programs; "
@@ -437,12 +624,20 @@ class RegistryProperty:
         self.runs = {"quick": quick_runs, "thorough": thorough_runs}
 
     def generate(self, seed, tier):
+        if Streams(seed)("kind").random() < 0.12:
+            return generate_applied(seed, tier)
         return generate(seed, tier)
 
     def execute(self, case):
+        if case.get("kind") == "applied":
+            return execute_applied(case)
         return execute(case)
 
     def shrink_candidates(self, case):
+        if case.get("kind") == "applied":
+            for k in range(len(case["probes"])):
+                yield dict(case, probes=case["probes"][:k] + case["probes"][k + 1:])
+            return
         ev = case["events"]
         n = len(ev)
         size = max(1, n // 2)
